@@ -203,7 +203,8 @@ func genFork(r *kit.Rand) (chain, stop, class string, n int) {
 	return
 }
 
-// genMerge: 2-3 branches below `from[,where]` that are merged again by a union or a join node (several PARENTS:
+// genMerge: 2-3 branches below `from[,where]` that are merged again by a union or a join node - inner, or OUTER with the
+// other parents lagging behind (`ojoin:<lag>`, `lunion:<lag>`: buffering nodes that flush in Finish) - (several PARENTS:
 // edge.multiConsumer with one reader goroutine per parent edge), followed by an output. Judged by the spec oracle
 // only: the stop completes, no goroutine is left, and the outputs below the merging node were handed every accepted
 // point (union: once per parent; join of the branches of one stream: once).
@@ -214,10 +215,17 @@ func genMerge(r *kit.Rand) (chain, stop, class string, n int) {
 	for k := 0; k < nb; k++ {
 		br = append(br, kit.Pick(r, branches))
 	}
-	kind := kit.Pick(r, []string{"union", "union", "join"})
-	if kind == "join" {
+	kind := kit.Pick(r, []string{"union", "union", "join", "ojoin", "ojoin", "lunion"})
+	if kind == "join" || (kind == "ojoin" && r.Chance(3, 4)) {
 		nb = 2
 		br = br[:2]
+	}
+	// BUFFERING merges: an outer join (.fill) / a union whose other parents lag <lag> points behind the first one when
+	// the input ends: the node has to flush the sets / points it still buffers (Finish) before it closes its child edge
+	lag := 0
+	if kind == "ojoin" || kind == "lunion" {
+		lag = kit.Pick(r, []int{1, 2, 3, 7})
+		kind = fmt.Sprintf("%s:%d", kind, lag)
 	}
 	tail := kit.Pick(r, []string{"post", "where,post", "alert", "influx:7"})
 	prefix := kit.Pick(r, []string{"from", "from,where"})
@@ -234,6 +242,9 @@ func genMerge(r *kit.Rand) (chain, stop, class string, n int) {
 	}
 	if strings.Contains(chain, "alert") && n > 300 {
 		n = 300
+	}
+	if lag > 0 && class != "early" && n <= lag {
+		n = lag + 5
 	}
 	return
 }
